@@ -17,6 +17,14 @@ BUILD = os.path.join(ROOT, "build")
 NPROC = min(16, os.cpu_count() or 4)
 
 ALLOWED_AXIOMS = {"propext", "Classical.choice", "Quot.sound"}
+# theorems of Sonic/Props/Consts.lean (extracted in-body source constants = model constants) each property depends on
+CONST_THMS = {
+    "C01": ["parse_consts", "scan_consts"], "C02": ["parse_consts"], "C03": ["parse_consts"], "C04": ["number_consts"],
+    "C05": ["scan_consts"], "C06": ["serialize_consts"], "C07": ["ftoa_consts"], "C08": [], "C09": ["page_consts", "serialize_consts"],
+    "C10": ["scan_consts"], "C11": ["scan_consts"], "C12": ["dom_consts"], "C13": ["dom_consts", "parse_consts"], "C14": ["page_consts"],
+    "C15": ["page_consts", "scan_consts", "parse_consts"], "C16": ["pool_consts"], "C17": ["pool_consts"], "C18": ["dom_consts"],
+    "C19": ["parse_consts"], "C20": ["scan_consts", "serialize_consts"],
+}
 FORBIDDEN = re.compile(r"\b(sorry|admit|native_decide|bv_decide|implemented_by|unsafe)\b|^\s*axiom\s|maxHeartbeats\s+0\b",
                        re.M)
 
@@ -107,7 +115,13 @@ def step_gen():
                        stderr=subprocess.STDOUT)
     if q.returncode != 0:
         return Obligation("gen:tables have the expected shape", False, q.stdout.decode(errors="replace")[-2000:])
-    return Obligation("gen:tables regenerated from /repo source", True, q.stdout.decode().strip())
+    r = subprocess.run([sys.executable, os.path.join(ROOT, "tools/extract_consts.py"), os.path.join(REPO, "include"),
+                        os.path.join(LEAN, "Sonic/Gen/SourceConsts.lean")], stdout=subprocess.PIPE, stderr=subprocess.STDOUT)
+    if r.returncode != 0:
+        return Obligation("gen:in-body constants still found in /repo source (tools/extract_consts.py)", False,
+                          r.stdout.decode(errors="replace")[-2000:])
+    return Obligation("gen:tables and in-body constants regenerated from /repo source", True,
+                      q.stdout.decode().strip() + "; " + r.stdout.decode().strip())
 
 
 def lake_build(targets, timeout=3000):
@@ -217,8 +231,11 @@ def build_harness(isa, mode, defines=()):
 
 
 def existing_modules(mods):
-    """Lean modules whose source file exists (property files appear as the proofs land)"""
-    return [m for m in mods if os.path.exists(os.path.join(LEAN, m.replace(".", "/") + ".lean"))]
+    """Lean property modules that have been integrated, i.e. are imported by lean/Sonic.lean (a file that merely exists may be
+    work in progress)"""
+    root = open(os.path.join(LEAN, "Sonic.lean")).read()
+    return [m for m in mods if re.search(r"^import\s+" + re.escape(m) + r"\s*$", root, re.M)
+            and os.path.exists(os.path.join(LEAN, m.replace(".", "/") + ".lean"))]
 
 
 def norm_cfg(c):
@@ -357,13 +374,15 @@ class Run:
         # 2 prove
         ok_drv, log_drv = lake_build(["sonic_model"])
         self.obligations.append(Obligation("build:lean model driver sonic_model", ok_drv, log_drv[-3000:] if not ok_drv else ""))
-        ok_props, log = lake_build(mod.LEAN_MODULES)
-        self.obligations.append(Obligation("prove:lake build " + " ".join(mod.LEAN_MODULES), ok_props,
+        lean_modules = list(mod.LEAN_MODULES) + ["Sonic.Props.Consts"]
+        required = list(mod.REQUIRED_THEOREMS) + ["Sonic.Props.Consts." + t for t in CONST_THMS.get(pid, [])]
+        ok_props, log = lake_build(lean_modules)
+        self.obligations.append(Obligation("prove:lake build " + " ".join(lean_modules), ok_props,
                                            ("\n".join(failing_decls(log)) + "\n" + log[-3000:]) if not ok_props else ""))
         # 3 audit
         names, axioms = [], {}
         if ok_props:
-            obs, names, axioms = step_audit(pid, mod.LEAN_MODULES, mod.REQUIRED_THEOREMS, thorough)
+            obs, names, axioms = step_audit(pid, lean_modules, required, thorough)
             self.obligations.extend(obs)
         # 4 build harnesses
         cfgs = [norm_cfg(c) for c in (mod.CONFIGS_THOROUGH if thorough and hasattr(mod, "CONFIGS_THOROUGH") else mod.CONFIGS)]
@@ -531,7 +550,7 @@ class Run:
         cov = {
             "obligations": len(self.obligations),
             "discharged": len(self.obligations) - len(broken),
-            "checker_cmd": f"cd /verif/lean && lake build {' '.join(mod.LEAN_MODULES)} sonic_model && lake env lean build/tmp/{pid}/Audit.lean (#print axioms)"
+            "checker_cmd": f"cd /verif/lean && lake build {' '.join(mod.LEAN_MODULES)} Sonic.Props.Consts sonic_model && lake env lean build/tmp/{pid}/Audit.lean (#print axioms)"
                            + (" && lake env leanchecker <module>" if self.tier == "thorough" else ""),
             "trusted_base": ["Lean 4.33.0 kernel", "axioms used by the property theorems: " + (", ".join(used_axioms) or "none"),
                              "tools/dump_tables.cpp + tools/gen_tables.py (table translator; g++ evaluating the header initialisers)",
